@@ -3,6 +3,6 @@ INVARIANT Inv
 CHECK_DEADLOCK FALSE
 CONSTANTS
   Sleeps = {1, 2}
-  Durations = {0, 1}
-  MaxTime = 3
+  Durations = {0, 1, 2}
+  MaxTime = 4
   SpuriousPolls = TRUE
